@@ -175,7 +175,9 @@ ProofVerdict(B, T, IT, R, n, k) ==
       psp  == PrunedPaths(P, ch, T, R, <<>>)
   IN IF SubSeq(data, 2, 33) # IT[R].h[1] THEN PV("stored-hash", {}, <<>>)
      ELSE IF <<data[34], data[35]>> # U16(IT[R].d[1]) THEN PV("stored-depth", {}, <<>>)
-     ELSE IF \E q \in prs : ~PairOK(P, IT, T, q[1], q[2]) THEN PV("pruned-cell", {}, <<>>)
+     ELSE IF \E q \in prs : P[q[1]].x = Pruned /\ ~PairOK(P, IT, T, q[1], q[2]) THEN PV("pruned-cell", {}, <<>>)
+     \* a cell that is kept is the source's cell: same data bits, type, number of references
+     ELSE IF \E q \in prs : ~PairOK(P, IT, T, q[1], q[2]) THEN PV("kept-cell", {}, <<>>)
      ELSE IF \E i \in reach : P[i].x = Pruned /\ ~\E q \in prs : q[1] = i THEN PV("pruned-cell", {}, <<>>)
      ELSE IF IP[ch].h[1] # IT[R].h[1] THEN PV("level0-hash", {}, <<>>)
      ELSE IF IP[ch].d[1] # IT[R].d[1] THEN PV("level0-depth", {}, <<>>)
@@ -217,16 +219,23 @@ WalkVerdict(B, T, IT, R, PS) ==
            hash |-> ReprHash(InfoTable(pr.T)[pr.roots[1]]), psp |-> PSp, extra |-> extra]
 WalkReason(B, T, IT, R, PS) == WalkVerdict(B, T, IT, R, PS).reason
 
-\* ------------------------------------------------ (a') the prover: a sequence of requests
-\* A MerkleProver is the immutable pair (T, R).  Every Cursor() opens a SESSION with an EMPTY prune set; cursors obtained
-\* from it by Ref share that session's prune set and nothing else.  A prover may serve any number of sessions, one after
-\* the other or interleaved; CreateProof(cursor of session c) is Proof(T, R, ps of session c): prunes made through another
-\* cursor session of the same prover - earlier or concurrent - have no effect.  ProveKeyInHashmap opens its own session.
-\* sess: session id -> [path, ps]
-NewSession(sess, c)  == (c :> [path |-> <<>>, ps |-> {}]) @@ sess
-SessState(T, R, sess, c) == [T |-> T, root |-> R, path |-> sess[c].path, ps |-> sess[c].ps]
-SessApply(T, R, sess, c, o) == LET s2 == Apply(SessState(T, R, sess, c), o) IN [sess EXCEPT ![c] = [path |-> s2.path, ps |-> s2.ps]]
-SessEnabled(T, R, sess, c, o) == c \in DOMAIN sess /\ OpEnabled(SessState(T, R, sess, c), o)
+\* ------------------------------------------------ (a') the prover: sessions and cursor values
+\* A MerkleProver is the immutable pair (T, R).  Every Cursor() opens a SESSION with an EMPTY prune set and returns a cursor
+\* VALUE at the root.  Ref(i) on a cursor value returns a NEW cursor value one step further down; it does not change the
+\* value it was applied to, nor any other value: a program may hold any number of cursor values of a session (take all
+\* children of a node first, use them later, in any order) and each keeps denoting the position it was created for.
+\* Prune through a cursor value adds ITS position to the session's prune set.  CreateProof(any cursor value of session c) is
+\* Proof(T, R, ps of session c): prunes made through another session of the same prover - earlier or concurrent - have no
+\* effect.  ProveKeyInHashmap opens its own session.
+\* sess: session id -> [cur |-> (cursor handle -> path), ps |-> prune set, last, held]; handle 0 is the value returned by
+\* Cursor(); last = the handle created most recently, held = some Ref / Prune went through a handle that was not the
+\* most recent one (a cursor value that was kept while others were derived) - only used to name findings
+NewSession(sess, c)  == (c :> [cur |-> (0 :> <<>>), ps |-> {}, last |-> 0, held |-> FALSE]) @@ sess
+HasCursor(sess, c, h) == c \in DOMAIN sess /\ h \in DOMAIN sess[c].cur
+SessRefEnabled(T, R, sess, c, h, i) == HasCursor(sess, c, h) /\ i \in 1..Len(T[NodeAt(T, R, sess[c].cur[h])].r)
+\* nh := h.Ref(i): handle nh (new, or a program variable that is assigned again) now denotes the child position
+SessRef(sess, c, h, nh, i) == [sess EXCEPT ![c].cur = (nh :> Append(sess[c].cur[h], i)) @@ @, ![c].last = nh, ![c].held = @ \/ h # sess[c].last]
+SessPrune(sess, c, h) == [sess EXCEPT ![c].ps = @ \cup {sess[c].cur[h]}, ![c].held = @ \/ h # sess[c].last]
 SessProof(T, R, sess, c) == Proof(T, R, sess[c].ps)
 
 \* The prune set of a proof that keeps exactly the paths of the keys K1 of a dictionary: the siblings along those paths
